@@ -168,6 +168,26 @@ def translate_all(ctx):
                                  "from rspirv/binary/autogen_disas_operand.rs and the dispatcher in disassemble.rs")
         except TranslateError as e:
             fails["disas_operand"] = e
+    from translate import lift_context
+
+    def lift():
+        R = lift_context.parse(read(f"{REPO}/rspirv/lift/autogen_context.rs"))
+        ops_src = read(f"{REPO}/rspirv/sr/autogen_ops.rs")
+        decls = {"Op": lift_context.parse_enum_decl(ops_src, "rspirv/sr/autogen_ops.rs", "Op"),
+                 "Branch": lift_context.parse_enum_decl(ops_src, "rspirv/sr/autogen_ops.rs", "Branch"),
+                 "Terminator": lift_context.parse_enum_decl(ops_src, "rspirv/sr/autogen_ops.rs", "Terminator"),
+                 "Type": lift_context.parse_enum_decl(read(f"{REPO}/rspirv/sr/autogen_types.rs"), "rspirv/sr/autogen_types.rs", "Type"),
+                 "structs": lift_context.parse_struct_decls(read(f"{REPO}/rspirv/sr/autogen_instructions.rs"), "rspirv/sr/autogen_instructions.rs")}
+        return R, decls
+    attempt("lift", lift)
+    if all(k in T for k in ("lift", "operand_enum")):
+        try:
+            lean_emit.emit_lift(T, "Rspirv.Generated.Lift", f"{GEN}/Lift.lean",
+                                "from rspirv/lift/autogen_context.rs and rspirv/sr/autogen_{ops,types,instructions}.rs")
+        except TranslateError as e:
+            fails["lift"] = e
+        except KeyError as e:
+            fails["lift"] = TranslateError("rspirv/lift/autogen_context.rs", "name resolution", f"unknown operand variant {e}")
     ctx.data["T"] = T
     ctx.data["translate_fails"] = fails
     if "header" in T:
